@@ -81,7 +81,7 @@ FlatMap(os, st, Op(_)) ==
                           eff2 == LastSt(r, cur) IN
                       IF genEff /\ Eff(eff2) # Eff(cur)
                       THEN [o |-> <<Unm(eff2, "effects of a generator interleave with effects downstream")>>, e |-> eff2]
-                      ELSE IF os[i].s.alt /\ Ended(r) /\ r[Len(r)].k = "e"
+                      ELSE IF os[i].s.alt /\ Ended(r) /\ r[Len(r)].k \in {"e", "b"}
                       THEN [o |-> <<Unm(eff2, "error downstream of a live destructuring alternative")>>, e |-> eff2]
                       ELSE IF Ended(r) THEN [o |-> r, e |-> eff2]
                       ELSE IF Len(r) > MaxOut THEN [o |-> Append(r, Unm(eff2, "too many outputs")), e |-> eff2]
@@ -717,7 +717,7 @@ Foreach(f, st, env) ==
                               D(m, a) == IF m > Len(ds) THEN <<[k |-> "acc", s |-> a]>> ELSE IF ds[m].k # "env" THEN <<ds[m]>>
                                          ELSE LET us == Eval(f.update, [it EXCEPT !.v = a.v, !.id = NoId, !.ins = ds[m].s.ins, !.side = ds[m].s.side, !.alt = st.alt], ds[m].e)
                                                   RECURSIVE U(_, _)
-                                                  U(n, a2) == IF n > Len(us) THEN <<[k |-> "acc", s |-> Back(a2, LastSt(us, a2))]>>
+                                                  U(n, a2) == IF n > Len(us) THEN <<[k |-> "acc", s |-> IF Vals(us) = <<>> THEN Back(a2, LastSt(us, a2)) ELSE a2]>>
                                                               ELSE IF IsN(us[n]) THEN U(n + 1, a2)
                                                               ELSE IF ~IsV(us[n]) THEN <<us[n]>>
                                                               ELSE LET ex == IF HasF(f, "extract") THEN Eval(f.extract, us[n].s, ds[m].e) ELSE <<OutV(us[n].s)>>
